@@ -1205,6 +1205,10 @@ class Application():
         except HTTPException as http_err:  # HTTP_RANGE_NOT_SATISFIABLE case
             response = http_err.make_response()
             return response(start_response)
+        except RuntimeError as err:     # response object which was sent yet
+            log.error(str(err))
+            response = internal_server_error(request)
+            return response(start_response)
 
     def __call__(self, env, start_response):
         """Callable define for Application instance.
